@@ -20,7 +20,8 @@ META = {
     "explanation": "symbolic execution of add_to_frame / from_frame / instance_from_frame / __eq__ on "
                    "symbolic frames and numbers; obligations are unsat queries per path",
     "bounds": ["all 2^16 / 2^24 frames (symbolic)", "all legal address / group / instance numbers (symbolic)",
-               "wrong widths 1..64 (quick: 1..32)", "all ordered pairs of the 8 address kinds and of the "
+               "wrong widths 1..64 (quick: 1..32)", "decode histories: a symbolic frame of another width "
+               "(9/12/16/17/20/24/32 bits) decoded first", "all ordered pairs of the 8 address kinds and of the "
                "10 instance kinds + ReservedInstance"],
     "stubs": ["isinstance/int shims"],
     "outside": ["frame widths > 64", "ReservedInstance constructed by hand with non-byte values",
